@@ -149,9 +149,31 @@ def corpus_worker(job):
     return shard
 
 
+def deep_worker(job):
+    """Programs near the interpreter's resource limits (an expression nested around as deep as the point where the compiler reports 'nested too deeply'; such a program compiles in about a second):
+    the verdict must not depend on what the process compiled before (e.g. through a recursion limit left raised by a rejected program)."""
+    depth, known = job
+    shard = Shard()
+    src = 'out int n0 = 0;\nparser { "a"; n0 = [' + "1+(" * depth + "1" + ")" * depth + ']; }'
+    rejected = ("parser { \"a\"; undefinedhook(); }", [])
+    rejected2 = ("out int n0;\nparser { \"a\"; n1 = 3; }", ["-O3"])
+    fine = ("parser { /(a|b)+c/; }", ["-O3"])
+    try:
+        check_program(shard, src, ["-O1"], [0x61, 0x62], [[rejected], [fine], [rejected, rejected2, fine]], max_len=2)
+    except Failure as f:
+        if f.sig in known:
+            shard.known_hits[f.sig] += 1
+        else:
+            f.replay["source"] = "(expression nested %d deep)" % depth
+            shard.failures.append({"sig": f.sig, "what": "expression nested %d deep: %s" % (depth, f.what.replace(src, "<source>")), "replay": dict(f.replay, depth=depth)})
+    shard.event("deep_cases")
+    return shard
+
+
 def main(ctx):
     quick = ctx.tier == "quick"
     known = tuple(ctx.open_keys)
+    ctx.pmap(deep_worker, [(d, known) for d in ((430, 580, 1200, 2000) if quick else (340, 380, 420, 460, 500, 540, 580, 640, 720, 800, 1000, 1400, 1700, 2000, 2400, 3000))])
     corpus = sorted(glob.glob(os.path.join(common.REPO, "example", "test", "*.ok.nmfu")))
     if quick:
         corpus = corpus[::3]
@@ -163,10 +185,11 @@ def main(ctx):
                 "after 1-3 other compilations (rejected ones and other flag sets included, kept alive or released), twice in a row, with heap "
                 "perturbation; evaluations = child compilations. All must agree on verdict + error class and on the abstract machine's behaviour on "
                 "every input up to length 4 over <= 5 byte-class representatives (C text compared after address normalisation). "
+                "Plus programs with an expression nested 340-3000 deep (around the 'nested too deeply' threshold) after rejected / accepted histories. "
                 "Non-trivial: program with set-iteration-prone constructs compared under >= 3 settings; distinct by source.")
     ctx.assumptions = ["behavioural equality is decided on vlib/am.py over short inputs; C text equality (after normalising addresses) is sufficient but not required",
                        "heap layout cannot be enumerated, only perturbed"]
-    ctx.required_classes = ["programs", "corpus_cases"]
+    ctx.required_classes = ["programs", "corpus_cases", "deep_cases"]
 
 
 def replay(ctx, data):
